@@ -212,7 +212,9 @@ class YPPrologVisitor(prologVisitor):
 
     def _debug(self,*args):
         if self.context.debug_parser:
-            self.context.outf.write('# ' + " ".join([str(a) for a in args]) + '\n')
+            # a message may contain line breaks (quoted atoms): keep every line inside a comment
+            msg = " ".join([str(a) for a in args])
+            self.context.outf.write(''.join('# ' + line + '\n' for line in msg.splitlines() or ['']))
 
     def visitProgram(self,ctx):
         clauses = {}
